@@ -105,7 +105,7 @@ impl<'a, 'b, 'resources, PathLocatorImpl: PathLocator>
             .path_locator
             .find_require_path(&literal_require_path, &self.source)
         {
-            Ok(path) => path,
+            Ok(path) => crate::utils::normalize_path(path),
             Err(err) => {
                 self.errors.push(err.to_string());
                 return None;
